@@ -221,13 +221,12 @@ func NewPrelude() *Prelude {
 	p.Add("dt:Slice", "(declare-datatypes ((Slice 0)) (((mkSlice (sarr Int) (soff Int) (slen Int) (scap Int)))))")
 	p.Add("dt:Iface", "(declare-datatypes ((Iface 0)) (((mkIface (itag Int) (ival Int)))))")
 	p.Add("dt:Time", "(declare-datatypes ((Time 0)) (((mkTime (tinst Int) (tloc Int)))))")
-	p.Add("fn:str.len", "(declare-fun str.len (Str) Int)")
-	p.Add("fn:str.at", "(declare-fun str.at (Str Int) Int)")
-	p.Add("ax:str.len", "(assert (forall ((s Str)) (! (and (>= (str.len s) 0) (<= (str.len s) 4611686018427387904)) :pattern ((str.len s)))))")
-	p.Add("ax:str.at", "(assert (forall ((s Str) (i Int)) (! (and (<= 0 (str.at s i)) (<= (str.at s i) 255)) :pattern ((str.at s i)))))")
-	p.Add("const:str.empty", "(declare-const str.empty Str)")
-	p.Add("ax:str.empty", "(assert (= (str.len str.empty) 0))")
-	p.Add("ax:str.empty#2", "(assert (forall ((s Str)) (! (=> (= (str.len s) 0) (= s str.empty)) :pattern ((str.len s)))))")
+	p.Add("fn:s_len", "(declare-fun s_len (Str) Int)")
+	p.Add("fn:s_at", "(declare-fun s_at (Str Int) Int)")
+	p.Add("ax:s_len", "(assert (forall ((s Str)) (! (>= (s_len s) 0) :pattern ((s_len s)))))")
+	p.Add("const:s_empty", "(declare-const s_empty Str)")
+	p.Add("ax:s_empty", "(assert (= (s_len s_empty) 0))")
+	p.Add("ax:s_empty#2", "(assert (forall ((s Str)) (! (=> (= (s_len s) 0) (= s s_empty)) :pattern ((s_len s)))))")
 	p.Add("fn:old_alloc", "(declare-fun old_alloc (Int) Bool)")
 	p.Add("ax:old_alloc#0", "(assert (old_alloc 0))")
 	return p
